@@ -260,14 +260,34 @@ def run_direct(cell, seed, tier, known):
     return res
 
 
+def _min_gram_det(points, relative=False):
+    """smallest non-zero |Gram determinant| over all vertex subsets of size
+    2..k (edges from the first vertex of the subset): the quantities Johnson's
+    sub-algorithm compares with an absolute 10*eps are of this kind"""
+    P = np.array(points, dtype=float)
+    best = np.inf
+    k = len(P)
+    for r in range(2, k + 1):
+        for sub in itertools.combinations(range(k), r):
+            E = P[list(sub[1:])] - P[sub[0]]
+            d = abs(float(np.linalg.det(E.dot(E.T))))
+            if relative:
+                m2 = float(np.max(np.sum(E * E, axis=1)))
+                d = d / m2 ** len(E) if m2 > 0 else 0.0
+            if 0.0 < d < best:
+                best = d
+    return best
+
+
 def match_known(f, case, known):
     """C18-K1: the original GJK's backup procedure compares cofactor-like
     quantities (which scale with size^6) with an absolute 10*eps; for
     configurations smaller than ~3e-3 it misclassifies the Voronoi region."""
     ids = {k["id"] for k in known}
     m = max(abs(x) for p in case["points"] for x in p)
-    if "C18-K1" in ids and f["bucket"].startswith("original/") and m <= 5e-3:
+    if "C18-K1" in ids and f["bucket"].startswith("original/") and \
+            (_min_gram_det(case["points"]) < 1e-9 or _min_gram_det(case["points"], relative=True) < 1e-6):
         return "C18-K1"
-    if "C18-K2" in ids and f["bucket"].startswith("jolt/") and m <= 1e-5:
+    if "C18-K2" in ids and f["bucket"].startswith("jolt/") and (m <= 1e-5 or _min_gram_det(case["points"]) <= 1e-26):
         return "C18-K2"
     return None
